@@ -9,6 +9,21 @@ BASELINE = ("cd /repo && env -u PYCRAFT_VERIF /venv/bin/python -m pytest -ra -q 
             "--timeout=900 --continue-on-collection-errors")
 
 CHECKS = {
+    'C15': dict(
+        technique='TLA+ model of read_packet with end of stream at every offset (Framing.tla: safety + liveness, the pre-fix loop '
+                  'must fail) checked by TLC; five reference conversations cut at every byte offset run against the real client '
+                  'under a deterministic scheduler where hang / spin / blocking are observable outcomes; runs validated against '
+                  'Trace_Framing.tla by TLC (I->S)',
+        text='Framing.tla with EofArrive enabled at every offset: NoPartialDelivery, BoundedReadsAfterEof, AllCompleteDelivered and the '
+             'liveness property eof ~> reader left hold for the present loop and are violated by the loop as it was (self-test '
+             'configuration). For status, status-then-login, login with compression, login with encryption and compressed play '
+             'traffic every server stream is cut at every offset (quick: every second offset plus frame boundaries +-2) and the real '
+             'client must finish the execution (not exhaust the step budget, not spin on empty reads, not block, not idle for ever), '
+             'report an error - or take exactly the documented fallback to the default version when the status query went '
+             'unanswered - and deliver only completely sent packets; each run is judged read by read by the contract in TLC.',
+        note='Trusted: TLC, the scheduler and virtual socket layer as the observer of liveness (step budget 60000, spin = 50 empty '
+             'reads), the peer codec.',
+        design='5/C15'),
     'C01': dict(
         technique='TLA+ model of read_packet against arbitrary arrivals and cuts (Framing.tla) checked exhaustively by TLC; emitted '
                   'behaviours concretised by an independent encoder and replayed through the real client (S->I); large seeded runs '
